@@ -562,3 +562,12 @@ where
 pub fn product_size(dims: &[usize]) -> u64 {
     dims.iter().map(|d| *d as u64).product()
 }
+
+
+/// Texts that mean something to git, to a CI system or to a configuration language: as values of a branch / hash / custom
+/// variable they are text like any other. Shared by the layers that put "words" where free text is expected.
+pub fn keyword_texts() -> Vec<&'static str> {
+    vec!["HEAD", "head", "main", "master", "refs/heads/main", "refs/heads/HEAD", "refs/remotes/origin/main", "refs/remotes/origin/HEAD", "origin/main", "origin/HEAD", "origin/origin/x", "refs/heads/origin/x", "refs/heads/refs/heads/x",
+        "refs/remotes/upstream/release/1", "refs/tags/v1.0.0", "refs/pull/12/merge", "heads/main", "remotes/origin/main", "(no branch)", "(HEAD detached at 1a2b3c4)", "none", "None", "null", "NULL", "nil", "true", "false", "yes", "off", "~", "*", "-", "0",
+        "undefined", "unknown", "default", "latest", "v1.2.3", "vv1.2.3", "1.2.3", "feature/HEAD", "dependabot/cargo/serde-1.0.200", "release/release/1", "release/1.2.x", "user@host:path", "a b"]
+}
